@@ -69,20 +69,38 @@ func chanField(v ssa.Value) string {
 
 func resolveTW(p *core.Prog) (*twRoles, string) {
 	t := &twRoles{g: newPkgGraph(p, f10CollPkg), arm: map[string]int{}, handler: map[string]*ssa.Function{}}
-	// run: the method started with `go` on a timing wheel
+	// run: the method started with `go` on a timing wheel whose body is the owner loop
+	// (a select receiving from the wheel's channels); other goroutines started on the wheel
+	// (e.g. the one executing due tasks) are ordinary asynchronous functions.
 	for _, f := range t.g.funcs {
 		for _, in := range core.Instrs(f, func(in ssa.Instruction) bool { _, ok := in.(*ssa.Go); return ok }) {
 			callee := in.(*ssa.Go).Call.StaticCallee()
-			if callee != nil && callee.Signature.Recv() != nil && isTW(callee.Signature.Recv().Type()) {
-				if t.run != nil && t.run != callee {
-					return nil, "more than one goroutine body is started on a TimingWheel"
-				}
-				t.run, t.ctor = callee, f
+			if callee == nil || callee.Signature.Recv() == nil || !isTW(callee.Signature.Recv().Type()) {
+				continue
 			}
+			isLoop := false
+			for _, s := range core.Instrs(callee, isSelect) {
+				n := 0
+				for _, st := range s.(*ssa.Select).States {
+					if st.Dir == types.RecvOnly && chanField(st.Chan) != "" {
+						n++
+					}
+				}
+				if n >= 2 {
+					isLoop = true
+				}
+			}
+			if !isLoop {
+				continue
+			}
+			if t.run != nil && t.run != callee {
+				return nil, "more than one owner loop is started on a TimingWheel"
+			}
+			t.run, t.ctor = callee, f
 		}
 	}
 	if t.run == nil {
-		return nil, "no `go w.<method>()` on a TimingWheel found"
+		return nil, "no `go w.<method>()` running a select over the wheel's channels found"
 	}
 	sels := core.Instrs(t.run, isSelect)
 	if len(sels) != 1 {
@@ -266,6 +284,17 @@ func c10(r *core.Run) {
 		return true
 	}
 
+	var g0 *pkgGraph
+	graphOf := func() *pkgGraph {
+		if t != nil {
+			return t.g
+		}
+		if g0 == nil {
+			g0 = newPkgGraph(p, f10CollPkg)
+		}
+		return g0
+	}
+
 	// ---------------- D1 API guards ----------------
 	type api struct {
 		name, ch        string
@@ -298,16 +327,17 @@ func c10(r *core.Run) {
 					return
 				}
 				r.Fn(core.FuncName(f))
-				bad := []struct {
-					atom core.Atom
-					txt  string
-				}{{core.Cmp(token.EQL, paramIs(keyP), core.IsNil), "key == nil"}}
-				if a.hasDely {
-					bad = append(bad, struct {
-						atom core.Atom
-						txt  string
-					}{core.Cmp(token.LEQ, paramIs(delayP), core.IsConstInt(0)), "delay <= 0"})
+				g := graphOf()
+				kind := func(v ssa.Value) int {
+					switch {
+					case paramIs(keyP)(v):
+						return 1
+					case delayP != nil && paramIs(delayP)(v):
+						return 2
+					}
+					return 0
 				}
+				tru, fal := true, false
 				effect := func(in ssa.Instruction) bool {
 					switch x := in.(type) {
 					case *ssa.Select, *ssa.Send, *ssa.Go:
@@ -316,36 +346,53 @@ func c10(r *core.Run) {
 						return !freshRoot(x.Addr)
 					case *ssa.Call:
 						c := x.Call.StaticCallee()
-						return c != nil && c.Signature.Recv() != nil && isTW(c.Signature.Recv().Type())
+						return c != nil && g.inPkg[c] && g.hasEffects(c)
 					}
 					return false
 				}
+				type cas struct {
+					facts argFacts
+					txt   string
+				}
+				bad := []cas{{argFacts{kind: kind, keyNil: &tru}, "key == nil"}}
+				if a.hasDely {
+					bad = append(bad, cas{argFacts{kind: kind, delayNonPos: &tru}, "delay <= 0"})
+				}
 				for _, b := range bad {
-					holds, _ := core.EdgesOf(f, b.atom)
-					o.Site(len(holds), core.FuncName(f)+": "+b.txt)
-					if len(holds) == 0 {
-						o.Fail(p.Pos(f.Pos()), "%s never tests %s", a.name, b.txt)
-						continue
-					}
-					if w := core.Requires(f, core.Is(sel), core.Not(b.atom)); w != nil {
-						o.Fail(p.InstrPos(w), "the send on %s is reachable without having established !(%s)", a.ch, b.txt)
-					}
-					if w, ok := core.Reach(core.Q{From: f10Heads(holds), Target: effect}); ok {
-						o.Fail(p.InstrPos(w), "with %s the operation still has an effect (send/store/call) instead of only returning ErrArgument", b.txt)
-					}
-					n := 0
-					core.Reach(core.Q{From: f10Heads(holds), Blocked: effect, Target: func(in ssa.Instruction) bool {
+					o.Site(1, core.FuncName(f)+": "+b.txt)
+					nret := 0
+					g.reachUnder(f, b.facts, func(in ssa.Instruction) bool {
+						if effect(in) {
+							if in == ssa.Instruction(sel) {
+								o.Fail(p.InstrPos(in), "the send on %s is reachable with %s", a.ch, b.txt)
+							} else {
+								o.Fail(p.InstrPos(in), "with %s the operation still has an effect (send/store/call) instead of only returning ErrArgument", b.txt)
+							}
+							return true
+						}
 						if ret, ok := in.(*ssa.Return); ok {
-							n++
+							nret++
 							if !isErrGlobal("ErrArgument")(core.Result(ret, 0)) {
 								o.Fail(p.InstrPos(in), "with %s %s returns %s, not ErrArgument", b.txt, a.name, core.Describe(core.Result(ret, 0)))
 							}
 						}
 						return false
-					}})
-					if n == 0 {
-						o.Fail(p.Pos(f.Pos()), "no return found on the %s arm", b.txt)
+					})
+					if nret == 0 {
+						o.Fail(p.Pos(f.Pos()), "no return found for %s", b.txt)
 					}
+				}
+				// not vacuous: valid arguments reach the send
+				good := argFacts{kind: kind, keyNil: &fal, delayNonPos: &fal}
+				reached := false
+				g.reachUnder(f, good, func(in ssa.Instruction) bool {
+					if in == ssa.Instruction(sel) {
+						reached = true
+					}
+					return false
+				})
+				if !reached {
+					o.Fail(p.InstrPos(sel), "valid arguments never reach the send on %s", a.ch)
 				}
 			})
 		}
@@ -792,8 +839,47 @@ func c10(r *core.Run) {
 		}
 		return ""
 	}
+	// the same, for code that computes the placement in line from the entry's own delay
+	namesInline := func(v ssa.Value) string {
+		if core.FieldAddrNameOfLoad(v) == "baseEntry.delay" {
+			return "d"
+		}
+		return names(v)
+	}
 	r.Check("D4/K7/placement-formula", "the placement function returns pos = (tickedPos + d/I) mod N and circle = (d/I − 1)/N", func(o *core.O) {
-		if !need(o) || !o.Need(t.place != nil, "the (pos, circle) placement function called by the set handler") {
+		if !need(o) {
+			return
+		}
+		wantPos, wantCircle := core.ParsePoly("mod(tp + idiv(d, I), N)"), core.ParsePoly("idiv(idiv(d, I) - 1, N)")
+		if t.place == nil {
+			// no placement helper: the set handler computes slot and circle in line
+			h := t.handler["setChannel"]
+			if !o.Need(h != nil && t.setIndex != nil, "the placement function, or a set handler placing the entry in line") {
+				return
+			}
+			r.Fn(core.FuncName(h))
+			a := &core.Alg{Name: namesInline}
+			n := 0
+			for _, c := range core.Calls(h, func(in ssa.Instruction) bool {
+				c, ok := in.(*ssa.Call)
+				return ok && c.Call.StaticCallee() == t.setIndex
+			}) {
+				n++
+				if got := a.Norm(core.Args(c)[1]); !got.Equal(wantPos) {
+					o.Fail(p.InstrPos(c), "pos = %s, expected %s", got, wantPos)
+				}
+			}
+			m := 0
+			for _, st := range core.StoresToField(h, "timingEntry.circle") {
+				m++
+				if got := a.Norm(st.Val); !got.Equal(wantCircle) {
+					o.Fail(p.InstrPos(st), "circle = %s, expected %s", got, wantCircle)
+				}
+			}
+			o.Site(n+m, core.FuncName(h))
+			if n == 0 || m == 0 {
+				o.Unres("neither a placement function nor an in-line placement (index call and circle store) found in %s", core.FuncName(h))
+			}
 			return
 		}
 		f := t.place
@@ -801,7 +887,6 @@ func c10(r *core.Run) {
 		a := &core.Alg{Name: names}
 		rets := core.Returns(f)
 		o.Site(len(rets), core.FuncName(f))
-		wantPos, wantCircle := core.ParsePoly("mod(tp + idiv(d, I), N)"), core.ParsePoly("idiv(idiv(d, I) - 1, N)")
 		for _, ret := range rets {
 			if got := a.Norm(core.Result(ret, 0)); !got.Equal(wantPos) {
 				o.Fail(p.InstrPos(ret), "pos = %s, expected %s", got, wantPos)
@@ -815,7 +900,13 @@ func c10(r *core.Run) {
 		if !need(o) || !o.Need(t.handler["tick"] != nil && t.scan != nil, "tick handler and slot scan") {
 			return
 		}
+		// the function that advances the position: the caller of the slot scan (the tick handler, or the owner loop itself)
 		f := t.handler["tick"]
+		for _, e := range t.g.in[t.scan] {
+			if _, plain := e.site.(*ssa.Call); plain && e.from != t.scan {
+				f = e.from
+			}
+		}
 		r.Fn(core.FuncName(f), core.FuncName(t.scan))
 		a := &core.Alg{Name: names}
 		sts := core.StoresToField(f, "TimingWheel.tickedPos")
@@ -914,7 +1005,7 @@ func c10(r *core.Run) {
 		}
 	})
 	r.Check("D4/K8/index-agrees-with-slot", "every (pos, entry) recorded in the timers index is the slot list the same entry was just pushed onto; the index setter stores exactly its arguments; a fresh entry takes pos/circle from the placement function in this order", func(o *core.O) {
-		if !need(o) || !o.Need(t.setIndex != nil && t.place != nil, "index setter and placement function") {
+		if !need(o) || !o.Need(t.setIndex != nil, "index setter") {
 			return
 		}
 		si := t.setIndex
@@ -1011,7 +1102,7 @@ func c10(r *core.Run) {
 		// fresh placement: pos = result 0, circle = result 1
 		isPlace := func(in ssa.Instruction) bool {
 			c, ok := in.(*ssa.Call)
-			return ok && c.Call.StaticCallee() == t.place
+			return ok && t.place != nil && c.Call.StaticCallee() == t.place
 		}
 		for _, f := range t.g.funcs {
 			pcs := core.Instrs(f, isPlace)
